@@ -117,13 +117,15 @@ def txDifference (a b : List Nat) : List Nat := a.filter (fun t => !b.contains t
 
 /-! ### BlockChain.insert, reorg, WriteBlockWithState -/
 
-/-- the `delFn` of `BlockChain.SetHead` (fix b4ec96a): lookups that point at the removed block are dropped -/
-def dropLookupsOf (lk : Map Loc) (x : Blk) : List Nat → Map Loc
-  | [] => lk
-  | t :: ts =>
-    match lk t with
-    | some l => if l.blk = x.id then dropLookupsOf (upd lk t none) x ts else dropLookupsOf lk x ts
-    | none => dropLookupsOf lk x ts
+/-- the `delFn` of `BlockChain.SetHead` (fix b4ec96a) and `dropLookups` of `BlockChain.insert` (fix 3f14ce8):
+    `for _, tx := range body.Transactions { if blockHash(GetTxLookupEntry(tx)) == hash { DeleteTxLookupEntry(tx) } }` —
+    the lookups that point at the block `x` are dropped.  Each deletion only touches the key it tested, so the loop is
+    written as ONE map (a key of `ts` whose entry points at `x` is gone, everything else is as before); this way the compiled
+    model reads the underlying map once per query instead of once per transaction of every dropped block. -/
+def dropLookupsOf (lk : Map Loc) (x : Blk) (ts : List Nat) : Map Loc := fun t =>
+  match lk t with
+  | some l => if l.blk = x.id ∧ t ∈ ts then none else some l
+  | none => none
 
 /-- `dropLookups(hash, number)` inside `BlockChain.insert` (fix 3f14ce8): the lookups that still point at the block
     `o` indexed at height `n` are deleted (`GetBodyNoVersion(hash, number)`: the body key carries the number) -/
